@@ -167,7 +167,7 @@ mutual
       Schema.eqvOpt f x.items y.items && Schema.eqvOpt f x.addl y.addl && x.hasNot == y.hasNot &&
       x.required == y.required && Schema.eqvKvs f x.props y.props && Schema.eqvKvs f x.defs y.defs &&
       Schema.eqvList f x.allOf y.allOf && optJsonEq x.default y.default && x.ext == y.ext &&
-      x.dereferenced == y.dereferenced && x.emptyKw == y.emptyKw
+      x.dereferenced == y.dereferenced && x.emptyKw == y.emptyKw && x.enumCoerced == y.enumCoerced
   def Schema.eqvOpt : Nat → Option Schema → Option Schema → Bool
     | _, none, none => true
     | 0, _, _ => false
@@ -384,9 +384,31 @@ mutual
     | f + 1, (k, v) :: rest => (k, msRewriteNode f v) :: msRewriteKvs f rest
 end
 
+/-- `generateEnumType` rewrites the members of a `type: integer` enum from float64 to int IN the schema node -/
+def isIntegerEnumNode (n : NodeF Schema) : Bool := n.types == ["integer"] && n.enum.isSome
+
+def markCoerced (s : Schema) : Schema := .mk { s.node with enumCoerced := true }
+
+mutual
+  def ecRewriteNode : Nat → Schema → Schema
+    | 0, s => s
+    | f + 1, s =>
+      if isIntegerEnumNode s.node then markCoerced s else ecRewriteChildren f s
+  def ecRewriteChildren : Nat → Schema → Schema
+    | 0, s => s
+    | f + 1, s =>
+      .mk { s.node with props := ecRewriteKvs f s.node.props,
+                        items := (match s.node.items with | some i => some (ecRewriteNode f i) | none => none),
+                        addl := (match s.node.addl with | some i => some (ecRewriteNode f i) | none => none) }
+  def ecRewriteKvs : Nat → List (String × Schema) → List (String × Schema)
+    | 0, kvs => kvs
+    | _, [] => []
+    | f + 1, (k, v) :: rest => (k, ecRewriteNode f v) :: ecRewriteKvs f rest
+end
+
 /-- the node a finished declaration is compared by -/
 def keptSchema (cfg : Config) (tEff : Schema) : Schema :=
-  if cfg.minSizedInts then msRewriteChildren 32 tEff else tEff
+  ecRewriteChildren 32 (if cfg.minSizedInts then msRewriteChildren 32 tEff else tEff)
 
 /-- `codegen.PrimitiveTypeFromJSONSchemaType` (+ the AddImport loop of its callers) -/
 def primitiveType (cfg : Config) (jsType format : String) (pointer : Bool) (n : NodeF Schema) : GenM TyRes := do
@@ -898,7 +920,8 @@ mutual
       -- duplicate constant names do not compile
       if (consts.map (·.1)).eraseDups.length ≠ consts.length then issue "duplicate-enum-constant"
       modify fun st => { st with
-        decls := st.decls ++ [{ name, ty, body := .enum vals wrap intCoerce consts (!cfg.onlyModels), schema := t }],
+        decls := st.decls ++ [{ name, ty, body := .enum vals wrap intCoerce consts (!cfg.onlyModels),
+                                schema := if intCoerce then markCoerced t else t }],
         byDef := (match defKey with | some dk => (dk, name) :: st.byDef | none => st.byDef) }
       return .named name
 end
